@@ -118,6 +118,15 @@ def generate() -> str:
     if f is not None:
         params = [a.arg for a in f.args.args][1:]
         env, e = body_expr(f)
+        if e is None:
+            # the explicit loop: `out = []; for T in IT: if C: out.append(E); return out` is `[E for T in IT if C]`
+            st = [x for x in f.body if not (isinstance(x, ast.Expr) and isinstance(x.value, ast.Constant))]
+            if (len(st) == 3 and isinstance(st[0], ast.Assign) and isinstance(st[0].targets[0], ast.Name) and src(st[0].value) in ("[]", "list()")
+                    and isinstance(st[1], ast.For) and not st[1].orelse and len(st[1].body) == 1 and isinstance(st[1].body[0], ast.If) and not st[1].body[0].orelse
+                    and len(st[1].body[0].body) == 1 and isinstance(st[2], ast.Return) and src(st[2].value) == st[0].targets[0].id):
+                ap = st[1].body[0].body[0]
+                if (isinstance(ap, ast.Expr) and isinstance(ap.value, ast.Call) and src(ap.value.func) == st[0].targets[0].id + ".append" and len(ap.value.args) == 1):
+                    e = ast.ListComp(elt=ap.value.args[0], generators=[ast.comprehension(target=st[1].target, iter=st[1].iter, ifs=[st[1].body[0].test], is_async=0)])
         if isinstance(e, ast.Name) and e.id in env:
             e = env[e.id]
         if isinstance(e, ast.Call) and src(e.func) == "list" and len(e.args) == 1:
@@ -164,6 +173,11 @@ def generate() -> str:
                         for s in f.body if isinstance(s, (ast.If, ast.Assign)))
             loop_over = "the prediction labels (a single label is wrapped into a list)" if src(loop.iter) == params[0] and wraps else "other: " + src(loop.iter)
             body = [s for s in loop.body]
+            # `if a: if b: raise` is `if a and b: raise`
+            while (len(body) == 2 and isinstance(body[0], ast.If) and not body[0].orelse and len(body[0].body) == 1 and isinstance(body[0].body[0], ast.If)
+                   and not body[0].body[0].orelse):
+                inner = body[0].body[0]
+                body = [ast.If(test=ast.BoolOp(op=ast.And(), values=[body[0].test, inner.test]), body=inner.body, orelse=[]), body[1]]
             if len(body) == 2 and isinstance(body[0], ast.If) and len(body[0].body) == 1 and isinstance(body[0].body[0], ast.Raise) and not body[0].orelse:
                 def g(node):
                     if isinstance(node, ast.BoolOp):
